@@ -32,23 +32,28 @@ Definition jmap_code (reverse : bool) (k : jkw) : justify :=
   | _ => JStart
   end.
 (* css-align / css-flexbox 8.2, horizontal ltr; lines are laid out left to right after reversal *)
-Definition jmap_css (reverse : bool) (k : jkw) : justify :=
+Definition jmap_css (column reverse : bool) (k : jkw) : justify :=
   match k with
   | KNormal | KFlexStart | KStretch => if reverse then JEnd else JStart
   | KFlexEnd => if reverse then JStart else JEnd
   | KStart | KLeft => JStart
-  | KEnd | KRight => JEnd
+  | KRight => if column then JStart else JEnd   (* left/right behave as start on the block axis *)
+  | KEnd => JEnd
   | KCenter => JCenter
   | KBetween => JBetween
   | KAround => JAround
   | KEvenly => JEvenly
   end.
 
-Definition to_jitem (r : ritem) (t : Q) : jitem := mkJ (rid r) t (rpad r + rbord r) (rml r) (rmr r).
+(* `zero_auto`: flex.py step 7 overwrites margin_top / margin_bottom 'auto' with 0 ("TODO: Fix this value")
+   before step 12 runs, so in a column container the main-axis auto margins are 0 *)
+Definition to_jitem (zero_auto : bool) (r : ritem) (t : Q) : jitem :=
+  mkJ (rid r) t (rpad r + rbord r)
+      (if zero_auto then Some (oz (rml r)) else rml r) (if zero_auto then Some (oz (rmr r)) else rmr r).
 
-Fixpoint zipj (rs : list ritem) (ts : list Q) : list jitem :=
+Fixpoint zipj (zero_auto : bool) (rs : list ritem) (ts : list Q) : list jitem :=
   match rs, ts with
-  | r :: rs', t :: ts' => to_jitem r t :: zipj rs' ts'
+  | r :: rs', t :: ts' => to_jitem zero_auto r t :: zipj zero_auto rs' ts'
   | _, _ => []
   end.
 
@@ -66,12 +71,12 @@ Fixpoint all_some {A : Type} (l : list (option A)) : option (list A) :=
   | Some x :: t => match all_some t with None => None | Some r => Some (x :: r) end
   end.
 
-Definition row_code (wrapm : nat) (reverse : bool) (k : jkw) (origin W gap : Q) (items : list ritem)
+Definition row_code (column : bool) (wrapm : nat) (reverse : bool) (k : jkw) (origin W gap : Q) (items : list ritem)
   : option (list (list placed)) :=
   all_some (map (fun line =>
     match targets (resolve (map to_item line) gap W) with
     | None => None
-    | Some ts => Some (justify_line (jmap_code reverse k) origin W gap (zipj line ts))
+    | Some ts => Some (justify_line (jmap_code reverse k) origin W gap (zipj column line ts))
     end) (lines_code wrapm reverse W gap items)).
 
 (* css-flexbox reference of the same pipeline *)
@@ -82,12 +87,12 @@ Definition lines_css (wrapm : nat) (reverse : bool) (W gap : Q) (items : list ri
   let ls := if Nat.eqb wrapm 2 then rev ls else ls in
   if reverse then map (@rev ritem) ls else ls.
 
-Definition row_css (wrapm : nat) (reverse : bool) (k : jkw) (origin W gap : Q) (items : list ritem)
+Definition row_css (column : bool) (wrapm : nat) (reverse : bool) (k : jkw) (origin W gap : Q) (items : list ritem)
   : option (list (list placed)) :=
   all_some (map (fun line =>
     match targets (resolve (map to_item line) gap W) with
     | None => None
-    | Some ts => Some (justify_css reverse (jmap_css reverse k) origin W gap (zipj line ts))
+    | Some ts => Some (justify_css reverse (jmap_css column reverse k) origin W gap (zipj false line ts))
     end) (lines_css wrapm reverse W gap items)).
 
 (* ---- judge.  Implementation output: per item (id, line index, position_x, width) *)
@@ -119,15 +124,16 @@ Definition css_negative_free (wrapm : nat) (reverse : bool) (W gap : Q) (items :
   existsb (fun line =>
     match targets (resolve (map to_item line) gap W) with
     | None => false
-    | Some ts => if Qlt_le_dec (jfree W gap (zipj line ts)) 0 then true else false
+    | Some ts => if Qlt_le_dec (jfree W gap (zipj false line ts)) 0 then true else false
     end) (lines_css wrapm reverse W gap items).
 
-Definition row_case : Type := (nat * bool * jkw * (Q * Q * Q) * list ritem * list (Z * Z * Q * Q))%type.
+Definition row_case : Type := (bool * nat * bool * jkw * (Q * Q * Q) * list ritem * list (Z * Z * Q * Q))%type.
 
-(* bit 0: model of the code <> implementation; bit 1: implementation <> css-flexbox reference;
+(* main axis = x for rows, y for columns (`column`).
+   bit 0: model of the code <> implementation; bit 1: implementation <> css-flexbox reference;
    bit 2: (diagnostic) negative free space on some line *)
 Definition row_judge (c : row_case) : nat :=
-  let '(wrapm, reverse, k, (origin, W, gap), items, out) := c in
-  ((if agree (row_code wrapm reverse k origin W gap items) out then 0 else 1) +
-   (if agree (row_css wrapm reverse k origin W gap items) out then 0 else 2) +
+  let '(column, wrapm, reverse, k, (origin, W, gap), items, out) := c in
+  ((if agree (row_code column wrapm reverse k origin W gap items) out then 0 else 1) +
+   (if agree (row_css column wrapm reverse k origin W gap items) out then 0 else 2) +
    (if css_negative_free wrapm reverse W gap items then 4 else 0))%nat.
